@@ -1,4 +1,5 @@
 import OrbitModel.Proofs.NetConverge
+import OrbitModel.Proofs.GenEqWalk
 import OrbitModel.Proofs.NetFinal
 import OrbitModel.Proofs.NetExample
 /-!
@@ -32,5 +33,9 @@ theorem held_never_shrinks (u : Univ) (s : State) (a : Act) (hc : Covers u s) :
 /-- the final-phase hypothesis is satisfiable from every reachable state -/
 theorem final_phase_exists (u : Univ) (s : State) (hc : Covers u s) :
     ∃ fin, ValidRun u s fin ∧ FinalPhase u s s.reps.length fin := exists_finalPhase u s hc
+
+/-- the replicator of the Go text of this run looks at EVERY hash a fetched entry names (no early exit
+from the loop that queues them), as the model's `fetchOk` does -/
+theorem parent_walk_tied_to_go_text : Gen.parentWalkExits = 0 := gen_parentWalk_complete
 
 end Orbit.C02
